@@ -324,3 +324,491 @@ def subtrees_for_shrinking(t):
         out += list(t[2])
         out.append(atom_ident("c"))
     return out
+
+
+# ================================================================================================
+# Programs and their surface variants (C14 and others)
+#
+# Expressions  ("int", n) ("bool", b) ("var", x) ("bin", op, l, r) ("un", op, e) ("call", f, [args])
+#              ("list", [es]) ("tuple", [es]) ("index", x, k) ("blobnew", T, [(field, e)]) ("field", x, f)
+#              ("ifx", c, a, b)
+# Statements   ("def", x, e, mutable, type|None) ("assign", x, op, e) ("expr", e) ("if", [(c, body)], else|None)
+#              ("loop", cond|None, body) ("ret", e|None) ("break",) ("continue",) ("block", body)
+#              ("unreachable",) ("assert", l, r)
+# Top level    ("fn", name, [(param, type)], ret_type|None, body) ("const", name, e) ("blob", T, [(field, type)])
+#
+# A Style decides every surface choice.  `Style()` is the canonical form (calls with parentheses, explicit
+# `ret`, `loop true do`, no redundant parentheses, no comments, four spaces, LF).
+
+class Style:
+    FEATURES = ("prime", "arrow", "implicit_ret", "loop_do", "parens", "comments", "blank", "indent", "tabs",
+                "crlf", "brk")
+
+    def __init__(self, seed=None, **on):
+        self.r = random.Random(seed)
+        self.on = {k: bool(on.get(k, False)) for k in self.FEATURES}
+        self.p = float(on.get("p", 0.6))
+
+    def want(self, feature):
+        return self.on[feature] and self.r.random() < self.p
+
+    @property
+    def unit(self):
+        if self.on["tabs"]:
+            return "\t"
+        if self.on["indent"]:
+            return "  "
+        return "    "
+
+
+def _atomlike(e):
+    return e[0] in ("int", "bool", "var", "call", "list", "tuple", "index", "field")
+
+
+def rx(e, st, pos="tail"):
+    """render an expression.  pos: 'tail' (whole right-hand side / statement), 'full' (a complete expression
+    delimited by brackets or commas), 'operand' (operand of an operator)"""
+    s = _rx(e, st, pos)
+    if st.want("parens") and pos != "noparen":
+        return "(" + s + ")"
+    return s
+
+
+def _brk(st, items, open_, close):
+    """bracketed, comma separated list with optional line breaks / comments inside the brackets"""
+    if not st.on["brk"] or not items:
+        return open_ + ", ".join(items) + close
+    out = open_
+    for i, it in enumerate(items):
+        if st.r.random() < st.p:
+            out += "\n" + (" " * st.r.randint(0, 6))
+        out += it
+        if i + 1 < len(items):
+            if st.r.random() < 0.3:
+                out += "\n" + (" " * st.r.randint(0, 6))
+            out += ","
+            if st.on["comments"] and st.r.random() < 0.2:
+                out += " // in brackets\n"
+            else:
+                out += " "
+    if st.r.random() < st.p:
+        out += "\n" + (" " * st.r.randint(0, 6))
+    return out + close
+
+
+def _rx(e, st, pos):
+    k = e[0]
+    if k == "int":
+        return str(e[1])
+    if k == "bool":
+        return "true" if e[1] else "false"
+    if k == "var":
+        return e[1]
+    if k == "un":
+        sep = " " if e[1] == "not" else ""
+        inner = e[2]
+        s = rx(inner, st, "operand")
+        if inner[0] in ("bin", "ifx") and not s.startswith("("):
+            s = "(" + s + ")"
+        return e[1] + sep + s
+    if k == "bin":
+        _, op, l, r = e
+        ls = rx(l, st, "operand")
+        rs = rx(r, st, "operand")
+        lt = ("bin", l[1], None, None) if l[0] == "bin" else (("un",) if l[0] == "un" else ("atom",))
+        rt = ("bin", r[1], None, None) if r[0] == "bin" else (("un",) if r[0] == "un" else ("atom",))
+        if (need_l(op, lt) or l[0] == "ifx") and not _wrapped(ls):
+            ls = "(" + ls + ")"
+        if (need_r(op, rt) or r[0] == "ifx") and not _wrapped(rs):
+            rs = "(" + rs + ")"
+        return "%s %s %s" % (ls, op, rs)
+    if k == "call":
+        _, f, args = e
+        if pos == "tail" and st.want("prime"):
+            if not args:
+                return f + "'"
+            return f + "' " + ", ".join(rx(a, st, "full") for a in args)
+        if args and pos in ("tail", "full") and st.want("arrow"):
+            first = rx(args[0], st, "operand")
+            if not _atomlike(args[0]) and not _wrapped(first):
+                first = "(" + first + ")"
+            return "%s -> %s%s" % (first, f, _brk(st, [rx(a, st, "full") for a in args[1:]], "(", ")"))
+        return f + _brk(st, [rx(a, st, "full") for a in args], "(", ")")
+    if k == "list":
+        return _brk(st, [rx(a, st, "full") for a in e[1]], "[", "]")
+    if k == "tuple":
+        items = [rx(a, st, "full") for a in e[1]]
+        if len(items) == 1:
+            return "(" + items[0] + ",)"
+        return _brk(st, items, "(", ")")
+    if k == "index":
+        return "%s[%d]" % (e[1], e[2])
+    if k == "field":
+        return "%s.%s" % (e[1], e[2])
+    if k == "blobnew":
+        return e[1] + " " + _brk(st, ["%s: %s" % (f, rx(v, st, "full")) for f, v in e[2]], "{", "}")
+    if k == "ifx":
+        return "if %s do %s else %s end" % (rx(e[1], st, "full"), rx(e[2], st, "full"), rx(e[3], st, "full"))
+    raise ValueError(k)
+
+
+def _wrapped(s):
+    """is s one parenthesised group?"""
+    if not s.startswith("("):
+        return False
+    d = 0
+    for i, c in enumerate(s):
+        if c == "(":
+            d += 1
+        elif c == ")":
+            d -= 1
+            if d == 0:
+                return i == len(s) - 1
+    return False
+
+
+class _Out:
+    def __init__(self, st):
+        self.st = st
+        self.lines = []
+
+    def line(self, depth, text):
+        st = self.st
+        if st.want("blank"):
+            self.lines.append("")
+        if st.want("comments") and st.r.random() < 0.5:
+            self.lines.append(st.unit * depth + "// " + st.r.choice(["note", "x := 1", "end", "do", "f' 1, 2", ""]))
+        if st.want("comments") and "\n" not in text:
+            text = text + " // " + st.r.choice(["c", "ret 1", ")", ""])
+        first = True
+        for part in text.split("\n"):
+            self.lines.append((st.unit * depth if first else "") + part)
+            first = False
+
+    def text(self):
+        eol = "\r\n" if self.st.on["crlf"] else "\n"
+        return eol.join(self.lines) + eol
+
+
+def render_block(body, st, out, depth, fn_tail=False):
+    for i, s in enumerate(body):
+        render_stmt(s, st, out, depth, fn_tail and i == len(body) - 1)
+
+
+def render_stmt(s, st, out, depth, is_fn_tail=False):
+    k = s[0]
+    if k == "def":
+        _, x, e, mutable, ty = s
+        if ty is None:
+            out.line(depth, "%s %s %s" % (x, ":=" if mutable else "::", rx(e, st)))
+        else:
+            out.line(depth, "%s: %s %s %s" % (x, ty, "=" if mutable else ":", rx(e, st)))
+    elif k == "assign":
+        out.line(depth, "%s %s %s" % (s[1], s[2], rx(s[3], st)))
+    elif k == "expr":
+        out.line(depth, rx(s[1], st, "tail"))
+    elif k == "assert":
+        out.line(depth, "%s <=> %s" % (rx(s[1], st, "operand"), rx(s[2], st, "operand")))
+    elif k == "if":
+        first = True
+        for c, body in s[1]:
+            out.line(depth, "%s %s do" % ("if" if first else "elif", rx(c, st, "full")))
+            first = False
+            render_block(body, st, out, depth + 1)
+        if s[2] is not None:
+            out.line(depth, "else")
+            render_block(s[2], st, out, depth + 1)
+        out.line(depth, "end")
+    elif k == "loop":
+        if s[1] is None:
+            out.line(depth, "loop do" if st.want("loop_do") else "loop true do")
+        else:
+            out.line(depth, "loop %s do" % rx(s[1], st, "full"))
+        render_block(s[2], st, out, depth + 1)
+        out.line(depth, "end")
+    elif k == "ret":
+        if s[1] is None:
+            out.line(depth, "ret")
+        elif is_fn_tail and st.want("implicit_ret"):
+            out.line(depth, rx(s[1], st, "tail"))
+        else:
+            out.line(depth, "ret " + rx(s[1], st, "tail"))
+    elif k == "break":
+        out.line(depth, "break")
+    elif k == "continue":
+        out.line(depth, "continue")
+    elif k == "unreachable":
+        out.line(depth, "<!>")
+    elif k == "block":
+        out.line(depth, "do")
+        render_block(s[1], st, out, depth + 1)
+        out.line(depth, "end")
+    else:
+        raise ValueError(k)
+
+
+def render_program(prog, st=None):
+    st = st or Style()
+    out = _Out(st)
+    for d in prog:
+        if d[0] == "fn":
+            _, name, params, ret, body = d
+            ps = ", ".join("%s: %s" % (p, t) if t else p for p, t in params)
+            head = "%s :: fn %s%s%sdo" % (name, ps, " " if ps else "", ("-> %s " % ret) if ret else "")
+            out.line(0, head)
+            render_block(body, st, out, 1, fn_tail=True)
+            out.line(0, "end")
+        elif d[0] == "const":
+            out.line(0, "%s :: %s" % (d[1], rx(d[2], st)))
+        elif d[0] == "blob":
+            fields = ["%s: %s" % (f, t) for f, t in d[2]]
+            if st.on["brk"]:
+                out.line(0, "%s :: blob {\n%s\n}" % (d[1], "".join("    %s,\n" % f for f in fields).rstrip("\n")))
+            else:
+                out.line(0, "%s :: blob { %s }" % (d[1], ", ".join(fields)))
+        else:
+            raise ValueError(d[0])
+        if st.on["blank"] or True:
+            out.lines.append("")
+    return out.text()
+
+
+# ---- generation of well-typed programs ---------------------------------------------------------------
+
+class _Env:
+    def __init__(self):
+        self.ints = []      # mutable int variables in scope
+        self.cints = []     # constant int variables
+        self.bools = []
+        self.lists = []
+        self.tuples = []
+        self.blobs = []     # (var, [fields])
+
+    def copy(self):
+        e = _Env()
+        for k, v in self.__dict__.items():
+            setattr(e, k, list(v))
+        return e
+
+
+def gen_int(r, env, fns, depth):
+    ints = env.ints + env.cints
+    x = r.random()
+    if depth <= 0 or x < 0.25:
+        if ints and r.random() < 0.6:
+            return ("var", r.choice(ints))
+        return ("int", r.randint(0, 9))
+    if x < 0.55:
+        return ("bin", r.choice(["+", "-", "*"]), gen_int(r, env, fns, depth - 1), gen_int(r, env, fns, depth - 1))
+    if x < 0.62:
+        return ("un", "-", gen_int(r, env, fns, depth - 1))
+    if x < 0.85 and fns:
+        f, n = r.choice(fns)
+        return ("call", f, [gen_int(r, env, fns, depth - 1) for _ in range(n)])
+    if x < 0.9 and env.tuples:
+        return ("index", r.choice(env.tuples), r.randint(0, 1))
+    if x < 0.95 and env.blobs:
+        v, fs = r.choice(env.blobs)
+        return ("field", v, r.choice(fs))
+    if x < 0.98:
+        return ("ifx", gen_bool(r, env, fns, depth - 1), gen_int(r, env, fns, depth - 1), gen_int(r, env, fns, depth - 1))
+    return ("int", r.randint(10, 99))
+
+
+def gen_bool(r, env, fns, depth):
+    x = r.random()
+    if depth <= 0 or x < 0.15:
+        if env.bools and r.random() < 0.5:
+            return ("var", r.choice(env.bools))
+        return ("bool", r.random() < 0.5)
+    if x < 0.65:
+        return ("bin", r.choice(["==", "!=", "<", "<=", ">", ">="]), gen_int(r, env, fns, depth - 1),
+                gen_int(r, env, fns, depth - 1))
+    if x < 0.85:
+        return ("bin", r.choice(["and", "or"]), gen_bool(r, env, fns, depth - 1), gen_bool(r, env, fns, depth - 1))
+    return ("un", "not", gen_bool(r, env, fns, depth - 1))
+
+
+def gen_body(r, env, fns, blobs, n, depth, in_loop, names):
+    body = []
+    for _ in range(n):
+        x = r.random()
+        if x < 0.22:
+            v = names()
+            mut = r.random() < 0.7
+            body.append(("def", v, gen_int(r, env, fns, 2), mut, r.choice([None, None, "int"])))
+            (env.ints if mut else env.cints).append(v)
+        elif x < 0.3:
+            v = names()
+            body.append(("def", v, gen_bool(r, env, fns, 2), True, None))
+            env.bools.append(v)
+        elif x < 0.42 and env.ints:
+            body.append(("assign", r.choice(env.ints), r.choice(["=", "+=", "-=", "*="]), gen_int(r, env, fns, 2)))
+        elif x < 0.52 and fns:
+            f, k = r.choice(fns)
+            body.append(("expr", ("call", f, [gen_int(r, env, fns, 1) for _ in range(k)])))
+        elif x < 0.6:
+            body.append(("assert", gen_int(r, env, fns, 1), gen_int(r, env, fns, 1)))
+        elif x < 0.72 and depth > 0:
+            branches = [(gen_bool(r, env, fns, 2), gen_body(r, env.copy(), fns, blobs, r.randint(1, 3), depth - 1,
+                                                           in_loop, names))
+                        for _ in range(r.randint(1, 2))]
+            els = gen_body(r, env.copy(), fns, blobs, r.randint(1, 2), depth - 1, in_loop, names) \
+                if r.random() < 0.5 else None
+            body.append(("if", branches, els))
+        elif x < 0.8 and depth > 0:
+            inner = gen_body(r, env.copy(), fns, blobs, r.randint(1, 3), depth - 1, True, names)
+            inner.append(("break",))
+            cond = None if r.random() < 0.6 else gen_bool(r, env, fns, 1)
+            body.append(("loop", cond, inner))
+        elif x < 0.83 and in_loop:
+            body.append(("if", [(gen_bool(r, env, fns, 1), [("continue",) if r.random() < 0.5 else ("break",)])], None))
+        elif x < 0.87:
+            v = names()
+            body.append(("def", v, ("tuple", [gen_int(r, env, fns, 1), gen_int(r, env, fns, 1)]), True, None))
+            env.tuples.append(v)
+        elif x < 0.9:
+            v = names()
+            body.append(("def", v, ("list", [gen_int(r, env, fns, 1) for _ in range(r.randint(0, 3))]), True, None))
+            env.lists.append(v)
+        elif x < 0.94 and blobs:
+            bname, fields = r.choice(blobs)
+            v = names()
+            body.append(("def", v, ("blobnew", bname, [(f, gen_int(r, env, fns, 1)) for f in fields]), True, None))
+            env.blobs.append((v, fields))
+        elif x < 0.96 and depth > 0:
+            body.append(("block", gen_body(r, env.copy(), fns, blobs, r.randint(1, 2), depth - 1, in_loop, names)))
+        elif x < 0.98:
+            body.append(("if", [(("bin", "==", ("int", 1), ("int", 2)), [("unreachable",)])], None))
+        else:
+            body.append(("expr", gen_int(r, env, fns, 2)))
+    return body
+
+
+def gen_program(r, size=4):
+    """a well-typed program (list of top-level items) that the compiler accepts with --no-std"""
+    counter = [0]
+
+    def names():
+        counter[0] += 1
+        return "v%d" % counter[0]
+    prog = []
+    blobs = []
+    if r.random() < 0.5:
+        fields = ["x", "y"][:r.randint(1, 2)]
+        prog.append(("blob", "P", [(f, "int") for f in fields]))
+        blobs.append(("P", fields))
+    fns = []
+    if r.random() < 0.5:
+        prog.append(("const", "k0", ("int", r.randint(1, 9))))
+    for i in range(r.randint(1, size)):
+        n = r.randint(0, 3)
+        params = [("p%d" % j, "int") for j in range(n)]
+        env = _Env()
+        env.cints = [p for p, _ in params]
+        body = gen_body(r, env, fns, blobs, r.randint(0, 4), 2, False, names)
+        body.append(("ret", gen_int(r, env, fns, 2)))
+        prog.append(("fn", "f%d" % i, params, "int", body))
+        fns.append(("f%d" % i, n))
+    env = _Env()
+    body = gen_body(r, env, fns, blobs, r.randint(2, 7), 2, False, names)
+    prog.append(("fn", "start", [], None, body))
+    return prog
+
+
+STYLE_FEATURES = ["prime", "arrow", "implicit_ret", "loop_do", "parens", "comments", "blank", "indent", "tabs", "crlf",
+                  "brk"]
+
+
+def surface_variants(prog, seed, n_mixed=2):
+    """[(name, text)]: canonical form, one variant per surface feature, and mixed variants"""
+    out = [("canonical", render_program(prog, Style()))]
+    for i, f in enumerate(STYLE_FEATURES):
+        out.append((f, render_program(prog, Style(seed * 131 + i, **{f: True}))))
+    r = random.Random(seed)
+    for j in range(n_mixed):
+        on = {f: r.random() < 0.5 for f in STYLE_FEATURES}
+        out.append(("mixed:" + "+".join(k for k, v in on.items() if v),
+                    render_program(prog, Style(seed * 977 + j, p=r.choice([0.3, 0.6, 0.9]), **on))))
+    return out
+
+
+# ---- layout variants of arbitrary source text (used on /repo/tests/**/*.sy) ----------------------------
+
+def _line_states(src):
+    """for each line: (starts inside a string literal?, bracket depth at line start)"""
+    states = []
+    in_str = False
+    depth = 0
+    for line in src.split("\n"):
+        states.append((in_str, depth))
+        i = 0
+        while i < len(line):
+            c = line[i]
+            if in_str:
+                if c == '"':
+                    in_str = False
+            elif c == '"':
+                in_str = True
+            elif c == "/" and line[i:i + 2] == "//":
+                break
+            elif c in "([{":
+                depth += 1
+            elif c in ")]}":
+                depth = max(0, depth - 1)
+            i += 1
+    return states
+
+
+def has_multiline_string(src):
+    return any(s for s, _ in _line_states(src))
+
+
+def layout_variants(src, seed):
+    """[(name, text)] text-level variants that touch only layout: re-indentation, tabs, CRLF, trailing
+    comments, blank lines, comment-only lines.  Lines inside string literals are left alone."""
+    r = random.Random(seed)
+    lines = src.split("\n")
+    states = _line_states(src)
+    out = []
+
+    def reindent(unit):
+        res = []
+        for l, (ins, _) in zip(lines, states):
+            if ins:
+                res.append(l)
+                continue
+            body = l.lstrip(" \t")
+            ind = len(l) - len(body)
+            res.append(unit * (ind // 2) + body if body else "")
+        return "\n".join(res)
+    out.append(("indent", reindent("   ")))
+    out.append(("tabs", reindent("\t")))
+    if not has_multiline_string(src):
+        out.append(("crlf", src.replace("\n", "\r\n")))
+    # trailing comments on lines that do not end inside a string and are not empty
+    res = []
+    for i, l in enumerate(lines):
+        ends_in_str = states[i + 1][0] if i + 1 < len(states) else False
+        if l.strip() and not ends_in_str and not states[i][0] and r.random() < 0.5:
+            res.append(l + "  // " + r.choice(["c", "end", "1, 2", ""]))
+        else:
+            res.append(l)
+    out.append(("trailing_comments", "\n".join(res)))
+    for name, ins in (("blank_lines", ""), ("comment_lines", "// inserted")):
+        res = []
+        for i, l in enumerate(lines):
+            if not states[i][0] and r.random() < 0.4:
+                res.append(ins)
+            res.append(l)
+        out.append((name, "\n".join(res)))
+    return out
+
+
+def prime_continuation_lines(src):
+    """indices of lines that continue an unbracketed prime call (a line starting with ','), DESIGN §7 row 19"""
+    idx = []
+    for i, (l, (ins, depth)) in enumerate(zip(src.split("\n"), _line_states(src))):
+        if not ins and l.lstrip(" \t\r").startswith(","):
+            idx.append(i)
+    return idx
